@@ -546,24 +546,29 @@ def pelx_local(g, L):
 def check_names(rep, prog):
     names = spec_table("sectionNames")
     I = Interpreter(prog)
-    t = table_of(I, I.global_value("pel.peltool.pel_values", "sectionNames"))
-    rep.check(t == names, "C01.R3.dispatch", "sectionNames equals the published table (18 names)", "pel_values.sectionNames",
-              "sectionNames = {...}", "sectionNames differs from the published table: %s" % sorted(
-                  k for k in set(names) | set(t or {}) if names.get(k) != (t or {}).get(k)))
-    # getSectionName: high byte then low byte, fallback Unknown
+    # getSectionName decided as a function: its summary is evaluated for every published id, for ids that are not in
+    # the table and for ids with unprintable / non-ASCII bytes (however the table is keyed: characters, integers, enum values)
     sid = Sym("sid", "int")
     r = I.call(PT + "getSectionName", [sid])
-    tl = table_lookup(I, r)
-    ok = tl is not None and tl["table"] == names and tl["default"] == Const("Unknown")
-    if ok:
-        k = tl["key"]
-        ok = isinstance(k, Op) and k.op == "concat" and len(k.args) == 2 and all(isinstance(a, Op) and a.op == "chr" for a in k.args)
-        if ok:
-            ok = equivalent(k.args[0].args[0], binop("bitand", binop("rshift", sid, Const(8)), Const(0xFF)))[0] and \
-                equivalent(k.args[1].args[0], binop("bitand", sid, Const(0xFF)))[0]
-    rep.check(ok, "C01.R3.dispatch", "getSectionName = sectionNames[chr(hi)+chr(lo)] else 'Unknown'", "getSectionName",
-              "return sectionNames.get(id, 'Unknown')", "section name is not looked up by the two id characters (high byte first) "
-              "with fallback 'Unknown': %r" % (r,))
+    from ..terms import evaluate, CannotEval
+    bad = None
+    n = 0
+    samples = [(ord(k[0]) << 8) | ord(k[1]) for k in names] + [0x5A5A, 0x0000, 0xFFFF, 0x8001, 0xC328, 0x2020, 0x4849, 0x5000, 0x0048, 0x4800, 0x7F7F]
+    for v in samples:
+        key = chr((v >> 8) & 0xFF) + chr(v & 0xFF)
+        want = names.get(key, "Unknown")
+        try:
+            got = evaluate(r, pelx.with_heap(I, {sid: v}))
+        except CannotEval as e:
+            got = "<%s>" % e
+        except Exception as e:
+            got = "<raises %s>" % type(e).__name__
+        n += 1
+        if got != want and bad is None:
+            bad = "section id 0x%04X is named %r, published name %r" % (v, got, want)
+    rep.count("section ids named", n)
+    rep.check(bad is None, "C01.R3.dispatch", "getSectionName gives the published name of each of the 18 ids and 'Unknown' for every other id "
+              "(evaluated for %d ids)" % n, "getSectionName", "return sectionNames.get(id, 'Unknown')", bad)
     # enum agreement
     ids = {}
     ci = prog.cls("pel.peltool.pel_types.SectionID")
